@@ -128,6 +128,10 @@ class Inliner:
             target = self.functions.get(name)
             if target is not None and name.startswith("_") and not name.startswith("__"):
                 return name, target, False
+            # a function nested in the anchored function, when the caller asked for it by name
+            nested = self.functions.get(f"{self.qual}.{name}")
+            if nested is not None and self.only is not None and name in self.only:
+                return f"{self.qual}.{name}", nested, False
             return None
         if isinstance(func, ast.Attribute) and isinstance(func.value, ast.Name) and func.value.id in ("self", "cls") \
                 and func.attr.startswith("_") and not func.attr.startswith("__"):
